@@ -99,9 +99,9 @@ def processFresh (c : Client) (wrapper : Nat) (m : Invite) (rid : Nat) : Client 
       match replaceRelays s1 m.gid m.relays with                       -- replace_group_relays
       | none => ({ c with store := s1 }, .err .group)
       | some s2 =>
-        match saveWelcome (savePw s2 (okPw wrapper rid)) (welcomeOf m rid wrapper) with   -- save_processed_welcome, save_welcome
-        | none => ({ c with store := savePw s2 (okPw wrapper rid) }, .err .welcome)
-        | some s4 => ({ c with store := s4 }, .welcome (welcomeOf m rid wrapper))
+        match saveWelcome s2 (welcomeOf m rid wrapper) with              -- save_welcome, then save_processed_welcome (/repo fed41a9)
+        | none => ({ c with store := s2 }, .err .welcome)
+        | some s3 => ({ c with store := savePw s3 (okPw wrapper rid) }, .welcome (welcomeOf m rid wrapper))
 
 /-- `MDK::process_welcome(wrapper_event_id, rumor)` -/
 def process (c : Client) (wrapper : Nat) (m : Invite) : Client × Res :=
@@ -169,7 +169,7 @@ def decline (c : Client) (m : Invite) : Client × Res :=
     0 validate, 1 dedup lookup, 2 preview, 3 save_group, 4 replace_group_relays, 5 rumor-id check,
     6 save_processed_welcome, 7 save_welcome, 8 into_group, 9 get_group, 10 find_welcome_by_event_id,
     11 get_welcome) -/
-def processOrder : List Nat := [0, 5, 1, 10, 10, 6, 2, 3, 4, 6, 7]
+def processOrder : List Nat := [0, 5, 1, 10, 10, 6, 2, 3, 4, 7, 6]
 def acceptOrder : List Nat := [11, 2, 8, 7, 9, 3, 4]
 def declineOrder : List Nat := [11, 2, 7, 9, 3]
 
